@@ -315,6 +315,11 @@ func genRepo(r *hx.Rng, root string, k int) repo {
 	case 1: // a broken glob pattern in the middle of the list
 		cfg += "self-hosted-runner:\n  labels:\n    - gpu-*\n    - 'bad[pattern'\n    - arm64-*\n    - x64-*\n"
 	}
+	// patterns for files named from the ROOT of the repository (not "**/"): they apply wherever
+	// the linter is started from
+	if r.Intn(2) == 0 {
+		cfg += "paths:\n  .github/workflows/caller*.yaml:\n    ignore:\n      - 'not defined'\n      - 'is required'\n  .github/workflows/callee.yaml:\n    ignore:\n      - '.*'\n"
+	}
 	write(filepath.Join(root, ".github", "actionlint.yaml"), cfg)
 	rp := repo{root: root, files: []string{callee}}
 	for i := 0; i < k; i++ {
@@ -551,13 +556,28 @@ func main() {
 		files = append(files, twice)
 		// alone
 		alone := map[string]string{}
+		rootOf := func(f string) string {
+			best := ""
+			for _, rt := range []string{ra.root, rb.root, rc.root} {
+				if strings.HasPrefix(f, rt+string(filepath.Separator)) && len(rt) > len(best) {
+					best = rt
+				}
+			}
+			return best
+		}
 		for _, f := range files {
-			errs, err := newLinter().LintFile(f, nil)
+			// alone = from the root of its own repository (the reference the property names)
+			wd := rootOf(f)
+			pb := wd
+			if pb == "" {
+				pb = cwd()
+			}
+			errs, err := newLinterWD(wd).LintFile(f, nil)
 			if err != nil {
 				sum.OracleFails = append(sum.OracleFails, failure{What: "fatal error linting a generated file alone", Key: "fatal-alone", Input: f, Got: err.Error()})
 				continue
 			}
-			alone[f] = perFile(errs, cwd())[f]
+			alone[f] = perFile(errs, pb)[f]
 			if alone[f] != "" {
 				sum.Dist["files_with_diagnostics"]++
 			} else {
